@@ -31,7 +31,11 @@ def run(prop, level, generator, rule, assumptions=(), models=(), shards=None):
             defs = ex.take_defs()
             eid = len(events)
             try:
-                events.append(enc.event(eid, "oblig", [], m.get("p", 0), "n", enc.sym("none"), pb=0, x={"j": j, "defs": defs}))
+                if isinstance(j, dict) and "op" in j:          # a raw event for another operation of spec/Judge.tla (e.g. "real")
+                    j = dict(j); j["id"] = eid
+                    events.append(j)
+                else:
+                    events.append(enc.event(eid, "oblig", [], m.get("p", 0), "n", enc.sym("none"), pb=0, x={"j": j, "defs": defs}))
             except (enc.EncodeRange, ValueError):
                 skipped += 1
                 continue
@@ -55,6 +59,10 @@ def run(prop, level, generator, rule, assumptions=(), models=(), shards=None):
             if entry:
                 chk.known_line(entry[0], "post" in bad.get(ev["id"], []))
             bad.pop(ev["id"], None)
+    und = sum(1 for cl in bad.values() if "undecided" in cl)
+    if und:
+        chk.cov["undecided"] = und
+        chk.notes.append("%d events left undecided by the spec's enclosures (never reported as violations)" % und)
     for i, cl in sorted(bad.items()):
         if "post" in cl:
             m = meta[i]
